@@ -38,6 +38,15 @@ def make(case):
     if case.get('xint') and case.get('kind') == 'tls' and case.get('xdim', 1) == 1:
         x[0] = 1.0          # an abscissa that is known as an integer (handed over as `cov_Obs(1, ...)`); the order of the points is immaterial
     yv = nf(np.array(truth), x)
+    k_int = None
+    if case.get('yint') and case.get('kind') == 'ls':
+        # the first data point is an external input given with an integer mean (`cov_Obs(3, ...)`, central value a Python int);
+        # the amplitudes of the model are rescaled so that the data stay consistent with the model
+        k_int = max(1, int(round(float(yv[0]))))
+        s_ = k_int / float(yv[0])
+        amp = {'exp': [0], 'cosh': [0], 'rat': [0, 2], 'exp2': [0, 2]}[case['model']]
+        truth = [t * s_ if i in amp else t for i, t in enumerate(truth)]
+        yv = nf(np.array(truth), x)
     n = 60
     common = nprng.normal(size=n)
     ys = []
@@ -46,6 +55,8 @@ def make(case):
         sig = 0.01 * abs(yv[p]) * (1 + 0.3 * (p % 3)) + 1e-3
         smp = yv[p] + sig * (case['corr'] * common + nprng.normal(size=n)) / np.sqrt(1 + case['corr'] ** 2)
         ys.append(pe.Obs([smp], [ens + '|r1']))
+    if k_int is not None:
+        ys[0] = pe.cov_Obs(k_int, (0.01 * k_int) ** 2, 'YI')
     return x, ys, af, nf, truth
 
 
@@ -356,6 +367,7 @@ def gen_case(ctx):
     if kind == 'tls' and model == 'exp2':
         case['model'] = 'exp'
     case['xint'] = kind == 'tls' and rng.random() < 0.3
+    case['yint'] = kind == 'ls' and not case['correlated'] and rng.random() < 0.25
     if kind == 'tls' and rng.random() < 0.35:
         case['xdim'] = 2
     if case['correlated'] and rng.random() < 0.6:
